@@ -61,7 +61,7 @@ def demo_cmd(demo_path, wt):
     if not cmd:
         return None
     cmd = re.split(r"\s(&&|;)\s", cmd)[0]
-    cmd = re.sub(r"-I/tmp/mut/C\d+/include", "-I%s/include" % wt, cmd)
+    cmd = re.sub(r"-I/tmp/mut\d*/C\d+/include", "-I%s/include" % wt, cmd)
     cmd = re.sub(r"-o\s+\S+", "", cmd)
     cmd = re.sub(r"\S*demo\.cpp\b", demo_path, cmd)
     return cmd
